@@ -21,6 +21,9 @@ FieldChoices ==
     b  |-> {Atom("bool", "T"), Atom("bool", "F")},
     s  |-> {Sx(""), Sx("a"), Sx("multibyte"), Sx("L300")},
     e  |-> {En("Color.RED"), En("Color.BLUE")},
+    z  |-> {En("Facing.NORTH"), En("Facing.SOUTH")},                              \* an enum whose first member has the value 0
+    lz |-> {Node("list", "", <<En("Facing.NORTH"), En("Facing.SOUTH")>>)},
+    dz |-> {Node("dict", "", <<KVt(En("Facing.NORTH"), I("0")), KVt(En("Facing.SOUTH"), I("1"))>>)},
     n  |-> {Inner("1", "a"), Inner("-1", "multibyte")},
     li |-> {Node("list", "", <<>>), Node("list", "", <<I("1"), I("-2147483649")>>), NoneT},
     ls |-> {Node("list", "", <<Sx("multibyte"), Sx("")>>), NoneT},
